@@ -180,11 +180,165 @@ def first_index_forms(ctx, crate, depths, clause="first-index-of-ring"):
                at=b.span, sample={"identities": n_ok})
 
 
+def model_in_ring_positions(n):
+    """{(b, i, j): position of the cell in its ring} from the reference model (topology.py): the cells whose
+    centre has the same y are one ring; inside it they are numbered by increasing longitude of the centre
+    (x mod 8 in the equatorial band, the exact longitude fraction of the facet in the caps)."""
+    from fractions import Fraction as F
+    from topology import base_centre
+    rings = {}
+    for b in range(12):
+        cx, cy = base_centre(b)
+        for i in range(n):
+            for j in range(n):
+                x = cx + F(i - j, n); y = cy + F(i + j + 1 - n, n)
+                if abs(y) <= 1: lon = (x % 8) / 2            # in quarter turns
+                else:
+                    q = b % 4; dx = x - F(2 * q + 1)
+                    lon = (q + F(1, 2) + dx / (2 * (2 - abs(y)))) % 4
+                rings.setdefault(y, []).append((lon, (b, i, j)))
+    out = {}
+    for y, cells in rings.items():
+        cells.sort()
+        for p, (lon, c) in enumerate(cells): out[c] = p
+    return out
+
+
+def closed_in_ring_position(n, b, i, j):
+    """the closed forms the rule compares the code with (validated against the model by a control)"""
+    q, row = b % 4, b // 4
+    k = n * (2 + row) - 2 - i - j; h = i + j
+    if k < n: return (n - 1 - j) + (k + 1) * q
+    if k >= 3 * n - 1: return i + (h + 1) * q
+    s = 0 if row == 1 else 1
+    return (((2 * q + s) * n + (i - j)) // 2) % (4 * n)
+
+
+def in_ring_position_forms(ctx, crate, depths, clause="position-in-ring"):
+    """D: the cell number `to_ring` returns is (cells of the rings before) + (position of the cell in its
+    ring, west to east from longitude 0): north cap (n-1-j) + (k+1) q, south cap i + (i+j+1) q, equatorial
+    band floor(((2q+s) n + i - j) / 2) mod 4n (q = b mod 4, s = 0 for the equatorial base cells, 1 for the
+    polar ones; the mod only acts for b = 4, i < j).  The closed forms are first checked against the
+    reference model (ranks by exact longitude, nside 1, 2, 4, 8); the code's returned term — floor halves
+    (`div2_quotient`) evaluated on the four parity classes of (i, j) — is then compared with
+    first-index + closed form as a polynomial identity, per depth, base cell and region."""
+    import floorpoly
+    from poly import Poly
+    from sym import C
+    from mir import callee_name
+    fn = "nested::Layer::to_ring"
+    b = ctx.anchor(crate, fn, clause)
+    if b is None: return
+    # control: closed forms == model ranks
+    okc = True
+    for n in (1, 2, 4, 8):
+        m = model_in_ring_positions(n)
+        okc = okc and all(closed_in_ring_position(n, *c) == p for c, p in m.items())
+    ctx.control("closed forms of the in-ring position == ranks by longitude in the reference model (nside 1, 2, 4, 8)", okc)
+    if not okc: return
+    D2 = "nested::div2_quotient"
+    bd2 = crate.body(D2)
+    shr1 = bd2 is not None and any((callee_name(t["func"]) or "").endswith("::shr") for _, t in bd2.calls()) or (bd2 is not None and any(s["k"] == "assign" and "Shr" in str(s) for _, _, s in bd2.assigns()))
+    fields = [f["name"] for f in crate.adts["nested::Layer"]["variants"][0]["fields"]]
+    bad = []; n_ok = 0
+    for d in depths:
+        n = 1 << d
+        vals = {"depth": C('u8', d), "nside": C('u32', n), "n_hash": C('u64', 12 * n * n), "twice_depth": C('u8', 2 * d)}
+        selfv = ('agg', 'adt:nested::Layer', 0, tuple(vals.get(f, ('sym', ('self', f))) for f in fields))
+        e0 = Engine(crate, opaque={"nested::Layer::decode_hash"}); e0.run_method(fn, selfv)
+        dec = [ev for ev in e0.events.values() if ev.callee == "nested::Layer::decode_hash"]
+        if len(dec) != 1: bad.append((d, "decode")); continue
+        d0h_t, i_t, j_t = ('fld', dec[0].ret, 0), ('fld', dec[0].ret, 1), ('fld', dec[0].ret, 2)
+        names = {i_t: "i", j_t: "j"}
+        from rules.c11_forms import ipoly
+        for base in range(12):
+            row, q = base // 4, base % 4
+            e1 = Engine(crate, opaque={"nested::Layer::decode_hash"}); e1.subst = {d0h_t: C('u8', base)}
+            e1.run_method(fn, selfv)
+            def lin(t):
+                o = t[3] if t[4][0] == 'c' else t[4]
+                return ipoly(o, names)
+            tests = [t for t, loc in e1.branches if loc[0] == fn and t[0] == 'op' and t[1] in ('lt', 'ge', 'gt', 'le') and (t[3][0] == 'c' or t[4][0] == 'c')
+                     and lin(t) is not None and not lin(t).is_const()]
+            if len(tests) < 2: bad.append((d, base, "region tests: %d" % len(tests))); continue
+            t_npc, t_spc = tests[0], tests[1]
+            # base cell 4: the sign of l = i - j — any comparison whose two sides differ by +-(i - j) + c
+            def diff(t):
+                a_, b_ = ipoly(t[3], names), ipoly(t[4], names)
+                return None if a_ is None or b_ is None else a_ - b_
+            lpoly = Poly.var("i") - Poly.var("j")
+            def sign_of(t):
+                dd = diff(t)
+                if dd is None: return None
+                for sg in (1, -1):
+                    rest = dd - Poly.const(sg) * lpoly
+                    if rest.is_const(): return sg, int(rest.d.get((), 0))
+                return None
+            t_neg = [t for t, loc in e1.branches if loc[0] == fn and t[0] == 'op' and t[1] in ('lt', 'le', 'gt', 'ge') and t not in (t_npc, t_spc) and sign_of(t) is not None]
+            regions = []
+            if row == 0: regions.append(("npc", {t_npc: C('bool', 1)}, None))
+            if not (d == 0 and row != 1):
+                if base == 4 and t_neg:
+                    # which way is "l < 0"?  the test is on i - j against 0: read its orientation
+                    # the test must be true exactly for l = i - j < 0 (or exactly for l >= 0): read it on l = -2..2
+                    tn = t_neg[0]; op = tn[1]; sgn, c0 = sign_of(tn)
+                    neg_when = None
+                    if sgn is not None:
+                        import operator
+                        f = {'lt': operator.lt, 'le': operator.le, 'gt': operator.gt, 'ge': operator.ge}[op]
+                        pat = [f(sgn * l_ + c0, 0) for l_ in (-2, -1, 0, 1, 2)]
+                        if pat == [True, True, False, False, False]: neg_when = True
+                        elif pat == [False, False, True, True, True]: neg_when = False
+                        else:
+                            bad.append((d, base, "the wrap of base cell 4 is taken for l = i - j in %s of (-2..2): it must be taken exactly for l < 0 (cells west of the meridian 0)" % [l_ for l_, t_ in zip((-2, -1, 0, 1, 2), pat) if t_])); continue
+                    if neg_when is None: bad.append((d, base, "sign test of l not recognised")); continue
+                    if d > 0:       # at depth 0 the only cell has i = j = 0
+                        regions.append(("eqr,l<0", {t_npc: C('bool', 0), t_spc: C('bool', 0), t_neg[0]: C('bool', 1 if neg_when else 0)}, 4 * n))
+                    regions.append(("eqr,l>=0", {t_npc: C('bool', 0), t_spc: C('bool', 0), t_neg[0]: C('bool', 0 if neg_when else 1)}, 0))
+                else:
+                    regions.append(("eqr", {t_npc: C('bool', 0), t_spc: C('bool', 0)}, 0))
+            if row == 2: regions.append(("spc", {t_npc: C('bool', 0), t_spc: C('bool', 1)}, None))
+            for rname, sub, wrap in regions:
+                e = Engine(crate, opaque={"nested::Layer::decode_hash"}); e.subst = dict(sub); e.subst[d0h_t] = C("u8", base)
+                r = e.run_method(fn, selfv)
+                if not r.returns: bad.append((d, base, rname, "diverges")); continue
+                halves = [ev for ev in e.events.values() if ev.callee == D2]
+                for ri in range(2):
+                    for rj in range(2):
+                        if d == 0 and (ri or rj): continue
+                        I = Poly.const(2) * Poly.var("I") + Poly.const(ri) if d > 0 else Poly.const(0)
+                        J = Poly.const(2) * Poly.var("J") + Poly.const(rj) if d > 0 else Poly.const(0)
+                        env = {i_t: I, j_t: J}; atoms = {}
+                        try:
+                            for ev in halves:
+                                env[ev.ret] = floorpoly.fdiv(floorpoly.ev(ev.args[0], env, atoms), 2)
+                            got = floorpoly.ev(r.ret, env, atoms)
+                        except (floorpoly.NeedModulus, floorpoly.Refused) as ex:
+                            bad.append((d, base, rname, "not a floor-polynomial: %s" % ex)); continue
+                        k = Poly.const(n * (2 + row) - 2) - I - J; h = I + J; Q = Poly.const(q); one = Poly.const(1)
+                        if rname == "npc":
+                            want = Poly.const(2) * k * (k + one) + (Poly.const(n - 1) - J) + (k + one) * Q
+                        elif rname == "spc":
+                            want = Poly.const(12 * n * n) - Poly.const(2) * (h + one) * (h + Poly.const(2)) + I + (h + one) * Q
+                        else:
+                            s = 0 if row == 1 else 1
+                            try: pos = floorpoly.fdiv(Poly.const((2 * q + s) * n) + I - J, 2) + Poly.const(wrap)
+                            except floorpoly.NeedModulus: bad.append((d, base, rname, "model form")); continue
+                            want = Poly.const(2 * n * (n + 1)) + (k - Poly.const(n)) * Poly.const(4 * n) + pos
+                        if atoms or got != want:
+                            bad.append((d, base, rname, "i mod 2 = %d, j mod 2 = %d: returns %r, first index + position = %r" % (ri, rj, got, want)))
+                        else: n_ok += 1
+    ctx.functions.add(fn)
+    ctx.report(clause, fn + ":position-west-to-east", not bad and shr1, "%d identities (depths %s x 12 base cells x reachable regions x parity classes of (i, j)): returned number = cells before the ring + rank of the cell by longitude" % (n_ok, depths if len(depths) < 8 else "0..=29") if not bad and shr1 else
+               ("div2_quotient is not a shift by one" if not bad else "differs: %s" % (bad[:2],)), at=b.span, sample={"identities": n_ok})
+
+
 def run(ctx):
     crate = ctx.crate("rel")
     no_32bit_wrap(ctx, crate)
     first_index_forms(ctx, crate, list(range(30)) if ctx.tier == "thorough" else [0, 1, 2, 13, 29])
     ring_index_form(ctx, crate, list(range(30)) if ctx.tier == "thorough" else [0, 1, 2, 13, 29])
+    in_ring_position_forms(ctx, crate, list(range(30)) if ctx.tier == "thorough" else [0, 1, 2, 13, 29])
     try:
         from rules import c11_forms
         c11_forms.run(ctx, crate)
